@@ -309,3 +309,29 @@ Definition reg_get (r : reg) (id : N) : tlist :=
 (* the threads saveLog iterates over; idtext = what `fout << tid` prints for an unnamed thread (opaque) *)
 Definition reg_threads (idtext : N -> str) (r : reg) : list thread :=
   map (fun en => mkThread (match re_name en with Some n => n | None => idtext (re_id en) end) (re_events en)) r.
+
+(* ------------------------------------------- ThreadEventList::stringCache
+   getCachedString(str): the cache is keyed by the POINTER; the text is copied when the pointer
+   is first seen and that copy is what events refer to from then on.  Pointers are numbers; a
+   lookup carries the text the pointer designates at that moment. *)
+Definition scache := list (N * str).
+
+Fixpoint sc_find (c : scache) (p : N) : option str :=
+  match c with
+  | [] => None
+  | (q, t) :: c' => if q =? p then Some t else sc_find c' p
+  end.
+
+(* auto fnd = stringCache.find(str); if (fnd == end) { stringCache[str] = make_shared<string>(str); return it; } return fnd->second *)
+Definition sc_lookup (c : scache) (p : N) (text : str) : str * scache :=
+  match sc_find c p with
+  | Some t => (t, c)
+  | None => (text, c ++ [(p, text)])
+  end.
+
+(* a sequence of lookups: the strings returned, in order *)
+Fixpoint sc_run (c : scache) (l : list (N * str)) : list str :=
+  match l with
+  | [] => []
+  | (p, text) :: l' => let (t, c') := sc_lookup c p text in t :: sc_run c' l'
+  end.
